@@ -483,6 +483,10 @@ func (d *DataRow) getVirtualRowValue(col *Column) interface{} {
 func (d *DataRow) GetCustomVarValue(col *Column, name string) string {
 	if col.StorageType == RefStore {
 		ref := d.refs[col.RefColTableName]
+		if ref == nil {
+			// no referenced object, ex.: the service of a host comment
+			return ""
+		}
 
 		return ref.GetCustomVarValue(col.RefCol, name)
 	}
